@@ -24,12 +24,43 @@ REF1 = {"I": "I", "H": "H", "P": "P", "Pdag": "P_dag", "X": "X", "Y": "Y", "Z": 
 #   ["CCNOT"|"CCZ"|"MCR", ct, c, tt, t, creg]
 #   ["MZ", rtype, reg, creg]
 
+class SharedListMutated(Exception):
+    pass
+
+
+_WLISTS = {}
+
+
+def shared_list(names):
+    """graphiq's solvers build many wrappers from one shared list object (entries of one_qubit_ops); the harness does the same,
+    so that code which mutates a wrapper's operations list in place corrupts its siblings here as it would there."""
+    key = tuple(names)
+    want = [ONE[x] for x in names]
+    lst = _WLISTS.get(key)
+    if lst is None:
+        lst = _WLISTS[key] = list(want)
+    elif lst != want:
+        _WLISTS[key] = list(want)
+        raise SharedListMutated("a wrapper's operations list %r was mutated in place to %r" % (list(names), [ONE_INV.get(c, str(c)) for c in lst]))
+    return lst
+
+
+def check_shared_lists():
+    """None, or a description of a shared wrapper list that no longer holds what it was created with."""
+    for key, lst in list(_WLISTS.items()):
+        want = [ONE[x] for x in key]
+        if lst != want:
+            _WLISTS[key] = list(want)
+            return "operations list %r became %r" % (list(key), [ONE_INV.get(c, str(c)) for c in lst])
+    return None
+
+
 def make_op(letter):
     k = letter[0]
     if k == "1":
         return ONE[letter[1]](register=letter[3], reg_type=letter[2])
     if k == "W":
-        return ops.OneQubitGateWrapper([ONE[x] for x in letter[1]], register=letter[3], reg_type=letter[2])
+        return ops.OneQubitGateWrapper(shared_list(letter[1]), register=letter[3], reg_type=letter[2])
     if k in ("CNOT", "CZ"):
         cls = ops.CNOT if k == "CNOT" else ops.CZ
         return cls(control=letter[2], control_type=letter[1], target=letter[4], target_type=letter[3])
